@@ -329,7 +329,7 @@ func (f *Formatter) walkChildrenArgumentList(typeDef *ast.Definition, childs ast
 
 		if ch.Value.Kind == ast.Variable {
 			// child name is empty if it's an array, f.e. hello(arrArg: [$someVariable])
-			if ch.Name == "" {
+			if ch.Name == "" && ch.Value.ExpectedType != nil {
 				res[ch.Value.Raw] = ch.Value.ExpectedType.String()
 			}
 			ad := typeDef.Fields.ForName(ch.Name)
